@@ -339,15 +339,21 @@ pub fn addressable(name: &str) -> bool {
         Some(c) if c.is_alphabetic() || c == '_' => {}
         _ => return false,
     }
-    name.chars().all(|c| c.is_alphanumeric() || c == '_') && !KEYWORDS.contains(&name)
+    // a keyword is written as a raw identifier (`r#type = 1`); the path keywords and `_` cannot be
+    name.chars().all(|c| c.is_alphanumeric() || c == '_') && !["crate", "self", "super", "Self", "_"].contains(&name)
+}
+
+/// a name as it has to be written in source: keywords as raw identifiers
+pub fn written(name: &str) -> String {
+    name.split("::").map(|seg| if KEYWORDS.contains(&seg.trim()) && !["crate", "self", "super", "Self", "_"].contains(&seg.trim()) { format!("r#{}", seg.trim()) } else { seg.to_string() }).collect::<Vec<_>>().join("::")
 }
 
 pub const KEYWORDS: [&str; 52] = [
     "as", "break", "const", "continue", "crate", "else", "enum", "extern", "false", "fn", "for", "if", "impl", "in", "let", "loop", "match", "mod", "move", "mut", "pub", "ref", "return", "self", "Self", "static", "struct", "super", "trait", "true", "type", "unsafe", "use", "where", "while", "async", "await", "dyn", "try", "_", "abstract", "become", "box", "do", "final", "macro", "override", "priv", "typeof", "unsized", "virtual", "yield",
 ];
 
-pub const FIELD_POOL: [&str; 16] = ["alpha", "beta", "gamma", "lorem", "ipsum", "dolor", "my_field", "another_one", "x1", "long_name_here", "volume", "level", "mode", "kind", "first_item", "speed"];
-pub const VARIANT_POOL: [&str; 10] = ["Alpha", "Beta", "Gamma", "LoremIpsum", "Dolor", "Quiet", "Loud", "VeryLoud", "Custom", "Other"];
+pub const FIELD_POOL: [&str; 18] = ["r#type", "r#match", "alpha", "beta", "gamma", "lorem", "ipsum", "dolor", "my_field", "another_one", "x1", "long_name_here", "volume", "level", "mode", "kind", "first_item", "speed"];
+pub const VARIANT_POOL: [&str; 12] = ["r#Match", "r#Type", "Alpha", "Beta", "Gamma", "LoremIpsum", "Dolor", "Quiet", "Loud", "VeryLoud", "Custom", "Other"];
 
 #[derive(Clone, Debug)]
 pub struct Profile {
